@@ -256,8 +256,10 @@ ev_recv(int c, int i, int blocking)
 		CHECK(KDONE(i) && KRESULT(i) == 0, "receive succeeds at once when a message is buffered");
 	else if (!blocking)
 		CHECK(KDONE(i) && KRESULT(i) == NNG_ETIMEDOUT, "C15: non-blocking receive on an empty buffer fails at once (EAGAIN)");
-	else
+	else {
 		CHECK(!KDONE(i), "blocking receive waits");
+		KWAIT_POST(i, c);
+	}
 	monitor();
 }
 static void
